@@ -6,6 +6,8 @@ compositions (alone, all ordered pairs of a core, the full vector, tiled/rotated
 """
 import itertools
 
+import warnings
+
 import numpy as np
 
 from mc import engine
@@ -296,6 +298,43 @@ def run_case(case):
                     except Exception:
                         pass
                 r.state(('invalid', lane, which, pos))
+    # a bracket end at which the function is not defined (nan): f(xmin) <= 0 <= f(xmax) does not hold, so this is an invalid
+    # bracket too - alone, inside a valid vector, and as a scalar call
+    core = core_lanes()
+    for k_, lane in enumerate(core[:12]):
+        for end in ('xmin', 'xmax'):
+            for pos in ('alone', 0, 2, 'scalar'):
+                lanes = [lane] if pos in ('alone', 'scalar') else valid[:pos] + [lane] + valid[pos:]
+                idx = 0 if pos in ('alone', 'scalar') else pos
+                f, A_, B_, _, _ = make_f(lanes)
+                bad_x = A_[idx] if end == 'xmin' else B_[idx]
+
+                def fnan(x, f=f, idx=idx, bad_x=bad_x):
+                    y = np.array(f(x), dtype=float, copy=True)
+                    xx = np.atleast_1d(np.asarray(x, float))
+                    if y.ndim == 0:
+                        return np.float64(np.nan) if xx[0] == bad_x else y
+                    y[idx] = np.where(xx[idx] == bad_x, np.nan, y[idx])
+                    return y
+                for solver, fn in (('bisect', bisect), ('chandrupatla', chandrupatla)):
+                    if pos == 'scalar' and solver == 'bisect':
+                        continue
+                    r.tr()
+                    r.ev()
+                    n_bad += 1
+                    try:
+                        with np.errstate(all='ignore'), warnings.catch_warnings():
+                            warnings.simplefilter('ignore')
+                            if pos == 'scalar':
+                                out = fn(lambda t: fnan(np.array([t]))[0], np.float64(A_[0]), np.float64(B_[0]))
+                            else:
+                                out = fn(fnan, A_.copy(), B_.copy())
+                        r.violation(f'C18:{solver}:invalid-bracket-accepted:nan-end', f'{solver}: lane {lane} whose function is nan '
+                                    f'at {end} (position {pos}) returned {np.ravel(np.asarray(out))[idx]!r} instead of raising',
+                                    case=case)
+                    except Exception:
+                        pass
+                r.state(('invalid-nan', k_, end, pos))
     r.nontriv(n_bad)
     r.hit('invalid', n_bad)
     r['sample'] = {'composition': 'invalid bracket', 'cases': n_bad}
